@@ -4,6 +4,7 @@ package config
 
 import (
 	"errors"
+	"regexp"
 	"sync/atomic"
 
 	"github.com/tevino/abool"
@@ -354,4 +355,116 @@ func VerifC04_Currency() {
 	rt.Assert(setConfigOption("k", nil, false) == nil, "currency/clear-ok")
 	rt.Assert(plain() == 0 && safe() == 0, "currency/getters-see-cleared-value")
 	rt.Reach("currency-end")
+}
+
+// ---- O6: values are validated against the option's regular expression
+// (string options: the value; string lists: every entry) ----
+
+func c04RefMatch(pattern int, s string) bool {
+	switch pattern {
+	case 0: // ^(on|off)$
+		return rt.Any(rt.EqStr(s, "on"), rt.EqStr(s, "off"))
+	case 1: // ^[a-z]+[0-9]?$
+		if len(s) == 0 {
+			return false
+		}
+		letters := len(s)
+		last := s[len(s)-1]
+		ok := true
+		if last >= '0' && last <= '9' {
+			letters--
+		}
+		if letters == 0 {
+			return false
+		}
+		for i := 0; i < letters; i++ {
+			if !(s[i] >= 'a' && s[i] <= 'z') {
+				ok = false
+			}
+		}
+		return ok
+	}
+	// ^(a|ab)c*$
+	rest := s
+	if len(rest) >= 2 && rest[0] == 'a' && rest[1] == 'b' {
+		all := true
+		for i := 2; i < len(rest); i++ {
+			if rest[i] != 'c' {
+				all = false
+			}
+		}
+		if all {
+			return true
+		}
+	}
+	if len(rest) >= 1 && rest[0] == 'a' {
+		for i := 1; i < len(rest); i++ {
+			if rest[i] != 'c' {
+				return false
+			}
+		}
+		return true
+	}
+	return false
+}
+
+func VerifC04_RegexValidation() {
+	c04Reset()
+	pattern := rt.Choice("pattern", 3)
+	list := rt.Bool("stringlist")
+	optType := OptTypeString
+	if list {
+		optType = OptTypeStringArray
+	}
+	o := addOption("k", optType, ReleaseLevelStable, &valueCache{})
+	o.compiledRegex = regexp.MustCompile([]string{`^(on|off)$`, `^[a-z]+[0-9]?$`, `^(a|ab)c*$`}[pattern])
+	prev := &valueCache{stringVal: "p", stringArrayVal: []string{"p"}}
+	o.activeValue = prev
+	ascii := func(s string) {
+		for i := 0; i < len(s); i++ {
+			rt.Assume(s[i] < 0x80)
+		}
+	}
+	var v interface{}
+	valid := true
+	if list {
+		n := rt.Len("entries", 0, 2)
+		var entries []string
+		for i := 0; i < n; i++ {
+			e := rt.StrN("entry"+string(rune('0'+i)), 0, 2)
+			ascii(e)
+			entries = append(entries, e)
+			valid = rt.All(valid, c04RefMatch(pattern, e))
+		}
+		if rt.Bool("asinterfaces") {
+			var iv []interface{}
+			for _, e := range entries {
+				iv = append(iv, e)
+			}
+			v = iv
+			if n == 0 {
+				v = []interface{}{}
+			}
+		} else {
+			v = entries
+			if n == 0 {
+				v = []string{}
+			}
+		}
+	} else {
+		s := rt.StrN("value", 0, 3)
+		ascii(s)
+		v = s
+		valid = c04RefMatch(pattern, s)
+	}
+	err := setConfigOption("k", v, false)
+	rt.ObserveBool("accepted", err == nil)
+	rt.Assert((err == nil) == valid, "regex/accepted-iff-every-entry-matches")
+	if err != nil {
+		rt.Assert(o.activeValue == prev, "regex/invalid-leaves-option-unchanged")
+		rt.Reach("regex-rejected")
+	} else {
+		rt.Assert(o.activeValue != nil && o.activeValue != prev, "regex/valid-installs-new-value")
+		rt.Reach("regex-accepted")
+	}
 }
